@@ -34,7 +34,7 @@ pub(crate) fn iters(default: u64) -> u64 {
 }
 #[allow(dead_code)]
 pub(crate) fn only(test: &str) -> bool {
-    match std::env::var("VERIF_ONLY") { Ok(t) if !t.is_empty() => t == test, _ => true }
+    match std::env::var("VERIF_ONLY") { Ok(t) if !t.is_empty() => t.split(',').any(|x| x == test), _ => true }
 }
 /// report one failing input; never panics (the driver parses the line)
 #[allow(dead_code)]
